@@ -75,6 +75,20 @@ CastleKW(x) ==
             /\ Sel(Mix(x, t[1], StateByte(t[4], 0), (IF t[2] = "." THEN 12 ELSE PieceIdx(t[2])) * 2 + (IF t[3] = White THEN 0 ELSE 1))) } }
 CastleK(x) == CastleKW(x) \cup { Mirror(p) : p \in CastleKW(x) }
 
+\* every double step with an enemy pawn anywhere on the two ranks around the landing square (the file edges
+\* included: the neighbour test must not wrap around the board), kings out of the way; and the colour mirror
+DPushW(f) ==
+  { Mk(Put(Put(Put(Put(EmptyBoard, 60, "k"), wk, "K"), SqOf(1, f), "P"), x, "p"), White, {}, 8) :
+      <<x, wk>> \in { t \in ((24..39) \ {SqOf(3, f)}) \X {2, 6} : SqOf(2, f) # t[1] } }
+DPush(f) == IF f > 7 THEN {} ELSE DPushW(f) \cup { Mirror(p) : p \in DPushW(f) }
+
+\* a queen or rook on the ENEMY king's home square that can move to the c- or g-file of that rank while the
+\* mover's own king is at home: its move text looks like the opponent's castling text
+CastleTextW(x) ==
+  { Mk(Put(Put(Put(EmptyBoard, 4, "K"), 60, pc), x, "k"), White, {}, 8) :
+      pc \in { q \in {"Q", "R"} : x \notin {4, 60} /\ x \notin KingT[4] } }
+CastleText(x) == CastleTextW(x) \cup { Mirror(p) : p \in CastleTextW(x) }
+
 \* White to move, black pawn just played f7-f5 style double step to row 4
 EpW(wk) ==
   { Mk(Put(Put(Put(Put(Put(EmptyBoard, wk, "K"), bk, "k"), SqOf(4, f), "p"), sl, sp), SqOf(4, f + d), "P"), White, {}, f) :
@@ -106,7 +120,7 @@ Promo(f) == PromoW(f) \cup { Mirror(p) : p \in PromoW(f) }
 VARIABLE st
 Seeds == IF Fam = "PROMO" THEN 0..7 ELSE Sq
 Members(k) == CASE Fam = "KXK" -> KXK(k) [] Fam = "KXKY" -> KXKY(k) [] Fam = "CASTLE" -> Castle(k) \cup CastleK(k)
-                [] Fam = "MATES" -> Mates(k) [] Fam = "EP" -> Ep(k) [] Fam = "PROMO" -> Promo(k)
+                [] Fam = "DPUSH" -> DPush(k) [] Fam = "CASTLETEXT" -> CastleText(k) [] Fam = "MATES" -> Mates(k) [] Fam = "EP" -> Ep(k) [] Fam = "PROMO" -> Promo(k)
 
 Init == st \in { [stage |-> 0, k |-> k] : k \in Seeds }
 Next == /\ st.stage = 0
